@@ -4,6 +4,10 @@ a  the direction sign reaches the returned times exactly once (every integrate()
 b  time reversal negates the whole right-hand side (rule C03.c on every site)
 c  a descending grid is integrated (direction-agnostic kernels) or rejected (forward-only kernels)
 d  samples at the requested times, first sample = initial state (driver traces vs reference; _propagate_dynsys grid)
+
+a (added)  on an event hit the reported time is in the frame of the requested (unsigned) grid for every integrator
+b (added)  the direction wrapper evaluates a time-dependent right-hand side at the signed time; its cache key is complete (hv.memo)
+d (added)  only exactly coinciding end points are short-circuited as a zero-length span
 """
 from __future__ import annotations
 
